@@ -106,7 +106,7 @@ fn op_from_json(v: &Value) -> Option<Op> {
 fn check(bytes: &[u8], stats: &mut Stats) -> Verdict {
     let mut s = Src::new(bytes);
     let hot = gen_universe(&mut s);
-    let never: Vec<u64> = (0..4).map(|i| hot[0].rotate_left(7 * (i + 1)) ^ 0xa5a5_5a5a_dead_beef ^ i as u64).filter(|k| !hot.contains(k)).collect();
+    let never: Vec<u64> = (0..4).map(|i| hot[0].rotate_left(7 * (i + 1)) ^ 0xa5a5_5a5a_dead_beef ^ i as u64).chain([0u64, u64::MAX, 1, 1 << 63, 0xffff_ffff, 1 << 32]).filter(|k| !hot.contains(k)).collect();
     let nops = s.below(401);
     // depth of the entry a never-forgetting table would hold (used only to aim generated depths)
     let mut shadow: HashMap<u64, u8> = HashMap::new();
@@ -416,7 +416,7 @@ thread_local! {
 fn check_long(bytes: &[u8], stats: &mut Stats) -> Verdict {
     let mut s = Src::new(bytes);
     let hot = gen_universe(&mut s);
-    let never: Vec<u64> = (0..4).map(|i| hot[0].rotate_left(7 * (i + 1)) ^ 0xa5a5_5a5a_dead_beef ^ i as u64).filter(|k| !hot.contains(k)).collect();
+    let never: Vec<u64> = (0..4).map(|i| hot[0].rotate_left(7 * (i + 1)) ^ 0xa5a5_5a5a_dead_beef ^ i as u64).chain([0u64, u64::MAX, 1, 1 << 63, 0xffff_ffff, 1 << 32]).filter(|k| !hot.contains(k)).collect();
     let max = LONG_MAX.with(|c| c.get());
     // sizes around the powers of two a capacity limit would sit at
     let n = *s.pick(&[70_000u64, 140_000, 280_000, 540_000, 1_100_000, 1_300_000, 2_200_000, 4_400_000]);
